@@ -1180,6 +1180,42 @@ func c16Paths(p *core.Program, r *core.Report) {
 			fileProbs(r, "C16.triggers", name, pos, trg, "size limit always tested; wait limit once a batch is open; flush iff a limit is reached")
 			r.OK("C16.decodable", name, pos, "buffer receives dout bytes of pack.WritePack")
 		case "ApplyConfig":
+			// the pending batch is the sender's until it is sent: re-configuring does not touch it. No
+			// statement of ApplyConfig (helpers followed) resets or replaces the batch buffer — the records
+			// in it would be dropped while their count and the batch's first time stay
+			{
+				acIn2 := newInliner(p, fi, nil)
+				drops := ""
+				seenB := map[*ast.BlockStmt]bool{}
+				var scan func(b *ast.BlockStmt, depth int)
+				scan = func(b *ast.BlockStmt, depth int) {
+					if b == nil || seenB[b] || depth > 3 {
+						return
+					}
+					seenB[b] = true
+					ast.Inspect(b, func(m ast.Node) bool {
+						switch v := m.(type) {
+						case *ast.AssignStmt:
+							for _, l := range v.Lhs {
+								if z.norm(l) == "buffer" {
+									drops = "replaces the batch buffer at " + p.Pos(v.Pos())
+								}
+							}
+						case *ast.CallExpr:
+							if s := z.norm(v.Fun); s == "buffer.Reset" || s == "buffer.Truncate" {
+								drops = "resets the batch buffer at " + p.Pos(v.Pos())
+							}
+							if hb := acIn2.Body(v); hb != nil {
+								scan(hb, depth+1)
+							}
+						}
+						return true
+					})
+				}
+				scan(fi.Decl.Body, 0)
+				r.Check(drops == "", "C16.count", name+" leaves the pending batch alone", pos, "no reset or replacement of the batch buffer outside the send",
+					drops+": the records pending in it are discarded while their count and the batch's first time are kept — they are never sent, and the next pack reports more records than it holds")
+			}
 			// every path through ApplyConfig looks at each of the four limits (assigns it, or compares it
 			// with the configured value to find it unchanged): no early way out after the first one
 			limits := []string{"logsinkQueueSize", "logsinkMaxWaitTime", "logsinkMaxBufferSize", "logsinkZipMinSize"}
